@@ -8,8 +8,12 @@ import PcVerif.Generated.Format
 namespace PcVerif.Fmt
 open Str
 
-def pad2 (n : Nat) : Str := padLeft 2 '0' (ofNat n)
-def pad3 (n : Nat) : Str := padLeft 3 '0' (ofNat n)
+def digitChar (n : Nat) : Char := Char.ofNat (48 + n % 10)
+/-- `f"{n:02d}"` for n < 100 and `f"{n:03d}"` for n < 1000 — the only arguments that occur, because
+    `duration.seconds < 86400` and `duration.microseconds // 1000 < 1000` (theorems `fields_in_range`);
+    wider numbers fall back to the general rendering -/
+def pad2 (n : Nat) : Str := if n < 100 then [digitChar (n / 10), digitChar n] else ofNat n
+def pad3 (n : Nat) : Str := if n < 1000 then [digitChar (n / 100), digitChar (n / 10), digitChar n] else ofNat n
 
 /-- whole microseconds handed to `timedelta` -/
 def wholeMicro (t : Rat) : Nat := t.floor.toNat
